@@ -76,6 +76,11 @@ func directC06extra(g *G, rep *Report) {
 	}
 	// 2. range() with hostile arguments
 	argv := []string{"0", "1", "3", "-1", "-3", "0.5", "-0.5", "0.0", "2.5", "1e300", "'2'", "null", "[1]", "true", "$i", "$f", "$h", "$z", "$s", "$n", "$l"}
+	// the ends of the integer range: index += step must not wrap around (short ranges only: a range of 2^62
+	// elements is a data-bounded loop of 2^62 steps, not a defect)
+	edgeCalls := []string{"range(9223372036854775806, 9223372036854775807, 2)", "range(9223372036854775800, 9223372036854775807, 3)", "range(9223372036854775806, 9223372036854775807)",
+		"range(9223372036854775805, 9223372036854775807, 9223372036854775807)", "range(-9223372036854775807, -9223372036854775800, 4611686018427387904)", "range(0, 9223372036854775807, 4611686018427387904)",
+		"range(1, 9223372036854775807, 9223372036854775806)"}
 	nr := g.N(600, 12000)
 	for i := 0; i < nr; i++ {
 		na := 1 + r.Intn(3)
@@ -84,6 +89,9 @@ func directC06extra(g *G, rep *Report) {
 			args = append(args, argv[r.Intn(len(argv))])
 		}
 		call := "range(" + strings.Join(args, ", ") + ")"
+		if i < 3*len(edgeCalls) {
+			call = edgeCalls[i%len(edgeCalls)]
+		}
 		body := []string{"{foreach $x in " + call + "}{$x},{/foreach}", "{length(" + call + ")}", "{for $x in " + call + "}[{$x}]{ifempty}none{/for}"}[r.Intn(3)]
 		src := "{namespace r}\n/**\n * @param? i\n * @param? f\n * @param? h\n * @param? z\n * @param? s\n * @param? n\n * @param? l\n */\n{template .t}\n{if false}{$i}{$f}{$h}{$z}{$s}{$n}{$l}{/if}" + body + "\n{/template}\n"
 		d := data.Map{"i": data.Int(2), "f": data.Float(1.5), "h": data.Float(0.5), "z": data.Float(0), "s": data.String("3"), "n": data.Null{}, "l": data.List{data.Int(1)}}
